@@ -84,3 +84,12 @@ pub fn fixed_with(pre: E) -> orx_fixed_vec::FixedVec<E> {
     v.push(pre);
     v
 }
+
+/// a SplitVec (linear growth, fragments of 2) that holds two elements and has no spare concurrent capacity
+pub fn split_full(pre: E) -> orx_split_vec::SplitVec<E, orx_split_vec::Linear> {
+    use orx_pinned_vec::PinnedVec;
+    let mut v = orx_split_vec::SplitVec::with_linear_growth_and_fragments_capacity(1, 1);
+    v.push(pre);
+    v.push(pre);
+    v
+}
